@@ -109,6 +109,19 @@ struct recl<15> {
   static constexpr const char* name = "debra_sf2_abandon";
 };
 
+// ---- eager variants: threshold 0, i.e. a scan on every retirement: a node that is retired while nobody protects it is freed at once,
+// so any later access through a stale pointer hits the freed-memory shadow immediately (sharpest setting of the heap oracle)
+template <>
+struct recl<16> {
+  using type = xr::hazard_pointer<>::with<xp::allocation_strategy<xr::hp_allocation::static_strategy<XV_HPK, 0, 0>>>;
+  static constexpr const char* name = "hp_eager";
+};
+template <>
+struct recl<17> {
+  using type = xr::hazard_eras<>::with<xp::allocation_strategy<xr::he_allocation::static_strategy<XV_HPK, 0, 0>>>;
+  static constexpr const char* name = "he_eager";
+};
+
 // Slot bookkeeping that hazard_pointer / hazard_eras publish through their allocation strategy (the number of hazard pointers /
 // eras of all live threads: it scales the retire threshold and the size of every scan); -1 for reclaimers without such a counter.
 template <int N>
@@ -122,6 +135,14 @@ inline long declared_slots<1>() {
 template <>
 inline long declared_slots<2>() {
   return (long)xr::he_allocation::static_strategy<XV_HPK, 1, 0>::number_of_active_hazard_eras();
+}
+template <>
+inline long declared_slots<16>() {
+  return (long)xr::hp_allocation::static_strategy<XV_HPK, 0, 0>::number_of_active_hazard_pointers();
+}
+template <>
+inline long declared_slots<17>() {
+  return (long)xr::he_allocation::static_strategy<XV_HPK, 0, 0>::number_of_active_hazard_eras();
 }
 template <>
 inline long declared_slots<8>() {
